@@ -1,5 +1,5 @@
 """Fail-closed translator from a small Python subset to Gallina, used to REGENERATE parts of the Coq
-model from persim's current source on every run (DESIGN.md section 12.8).
+model from persim's current source on every run (DESIGN.md section 12.7).
 
 Two front ends:
 
